@@ -229,8 +229,8 @@ def eval_legacy_section(paths):
 
 # ---- (ii b) tables of several paths, filled in every order ---------------------------------------
 
-TABLE_PATHS = ["images/boot.iso", "LiveOS/squashfs.img", ".discinfo", "zz/last.img", "-dash/first", "Images/Upper.img", "../up/x"]
-TABLE_TYPES = ["sha256", "md5", "sha1", "sha512", "sha256", "md5", "sha1"]
+TABLE_PATHS = ["images/boot.iso", "LiveOS/squashfs.img", ".discinfo", "zz/last.img", "-dash/first", "Images/Upper.img"]
+TABLE_TYPES = ["sha256", "md5", "sha1", "sha512", "sha256", "md5"]
 ABS_PATH = "/mnt/tree/images/boot.iso"
 
 
@@ -403,7 +403,7 @@ def run_unit(unit, acc):
         for m in range(0, n):
             for rest in itertools.permutations(others, m):
                 paths = [first] + list(rest)
-                want_table = {norm(p) if not p.startswith("..") else p: _entry(p) for p in paths}
+                want_table = {norm(p): _entry(p) for p in paths}
                 for how in ("add", "raw"):
                     if how == "raw":
                         want_table = {p: _entry(p) for p in paths}
